@@ -31,7 +31,9 @@ use crate::{
 pub fn validate_jump_destination(counter: &RuntimeBoxedVal, vm: &mut VM) -> execution::Result<u32> {
     let instruction_pointer = vm.instruction_pointer()?;
     let jump_target = match counter.constant_fold().data() {
-        RSVD::KnownData { value, .. } => value.value_le().as_u32(),
+        // The full 256-bit value is the target: anything that does not fit cannot name an instruction, so it must
+        // not be truncated into a different (possibly valid) offset
+        RSVD::KnownData { value, .. } => u32::try_from(value.value_le()).unwrap_or(u32::MAX),
         _ => {
             return Err(execution::Error::NoConcreteJumpDestination.locate(instruction_pointer));
         }
